@@ -10,3 +10,4 @@ import GSV.Props.KernelSummate
 import GSV.Props.KernelKrige
 import GSV.Props.KernelVario
 import GSV.RealInst
+import GSV.Props.C08
